@@ -458,6 +458,11 @@ func auditParams(st any, nargs int) *Error {
 	case selectStmt:
 		walkAll(s.cols)
 		walk(s.where)
+		for _, k := range s.order {
+			walk(k.e)
+		}
+		walk(s.limit)
+		walk(s.offset)
 	case insertStmt:
 		walkAll(s.values)
 		walkAll(s.returning)
@@ -678,6 +683,85 @@ func (db *DB) execSelect(s selectStmt, args []any) (*Result, *Error) {
 	var rows [][]any
 	for _, i := range idx {
 		rows = append(rows, t.Rows[i])
+	}
+	if len(s.order) > 0 {
+		for _, k := range s.order {
+			if err := db.validate(k.e, t, args); err != nil {
+				return nil, err
+			}
+		}
+		keys := make([][]any, len(rows))
+		for i, r := range rows {
+			for _, k := range s.order {
+				v, err := db.eval(k.e, t, r, args)
+				if err != nil {
+					return nil, err
+				}
+				keys[i] = append(keys[i], v)
+			}
+		}
+		perm := make([]int, len(rows))
+		for i := range perm {
+			perm[i] = i
+		}
+		sort.SliceStable(perm, func(a, b int) bool {
+			for j, k := range s.order {
+				x, y := keys[perm[a]][j], keys[perm[b]][j]
+				c := 0
+				switch {
+				case x == nil && y == nil:
+				case x == nil: // NULLs sort as larger than everything
+					c = 1
+				case y == nil:
+					c = -1
+				default:
+					c, _ = compare(x, y)
+				}
+				if k.desc {
+					c = -c
+				}
+				if c != 0 {
+					return c < 0
+				}
+			}
+			return false
+		})
+		sorted := make([][]any, len(rows))
+		for i, j := range perm {
+			sorted[i] = rows[j]
+		}
+		rows = sorted
+	}
+	bound := func(e expr, what string) (int, *Error) {
+		if e == nil {
+			return -1, nil
+		}
+		v, err := db.eval(e, nil, nil, args)
+		if err != nil {
+			return 0, err
+		}
+		n, ok := v.(int64)
+		if !ok || n < 0 {
+			return 0, errf("type", "%s must be a non-negative integer, got %v", what, v)
+		}
+		return int(n), nil
+	}
+	off, err := bound(s.offset, "OFFSET")
+	if err != nil {
+		return nil, err
+	}
+	lim, err := bound(s.limit, "LIMIT")
+	if err != nil {
+		return nil, err
+	}
+	if off > 0 {
+		if off > len(rows) {
+			off = len(rows)
+		}
+		rows = rows[off:]
+	}
+	if lim >= 0 && lim < len(rows) {
+		rows = rows[:lim]
 	}
 	return db.project(t, s.cols, s.cols == nil, rows, args)
 }
